@@ -238,7 +238,14 @@ def tree_strategy(draw, cd: ClassDesc, profile: Profile, depth: int = 0) -> dict
                 min_size=n, max_size=n, unique=True,
             )
         )
-        tree[UNKNOWN] = [(t, draw(st.binary(max_size=40))) for t in sorted(tags)]
+        def payload():
+            if draw(st.integers(0, 7)) == 0:  # an unknown field whose size needs a 2- or 3-byte varint / exceeds common buffer sizes
+                size = draw(st.sampled_from([127, 128, 4096, 8191, 8192, 8193, 16384, 70000]))
+                unit = draw(st.binary(min_size=1, max_size=3))
+                return (unit * (size // len(unit) + 1))[:size]
+            return draw(st.binary(max_size=40))
+
+        tree[UNKNOWN] = [(t, payload()) for t in sorted(tags)]
     return tree
 
 
